@@ -72,7 +72,14 @@ namespace sqf::runtime
             /// <summary>
             /// Returned on success.
             /// </summary>
-            ok
+            ok,
+            /// <summary>
+            /// A behavior restarted the frame, but the frame has no instruction to execute
+            /// (empty loop body, empty condition): control goes back to the executor, which
+            /// is where stop requests, the runtime limit and the slice length are looked at,
+            /// before the behavior is asked again.
+            /// </summary>
+            idle
         };
         enum class seekpos
         {
@@ -289,10 +296,12 @@ namespace sqf::runtime
                     m_exit_behavior = m_exit_behavior->get_behavior();
                     seek(0, ::sqf::runtime::frame::seekpos::start);
                     clear_values_helper(runtime);
+                    if (m_instruction_set.empty()) { return result::idle; }
                     goto start; // do not call here, reuse current stack
                 case behavior::result::seek_start:
                     seek(0, ::sqf::runtime::frame::seekpos::start);
                     clear_values_helper(runtime);
+                    if (m_instruction_set.empty()) { return result::idle; }
                     goto start; // do not call here, reuse current stack
                 case behavior::result::exchange:
                     m_instruction_set = m_exit_behavior->get_instruction_set(*this);
@@ -306,6 +315,7 @@ namespace sqf::runtime
                     dbg_str();
 
 #endif // DF__SQF_RUNTIME__ASSEMBLY_DEBUG_ON_EXECUTE
+                    if (m_instruction_set.empty()) { return result::idle; }
                     goto start; // do not call here, reuse current stack
                 case behavior::result::fail: /* do nothing */ break;
                 case behavior::result::ok: /* do nothing */ break;
